@@ -433,8 +433,8 @@ class Gen:
             elif x < 0.5:
                 t = self.small_type()
                 name = self.fresh("m")
-                if r.random() < 0.15 and env:
-                    name = r.choice(env)[0]          # shadowing
+                if r.random() < (0.4 if self.style == "mutation" else 0.2) and env:
+                    name = r.choice(env)[0]          # shadowing (often of a binding of an enclosing scope)
                 out.append("let mut %s: %s = %s;" % (name, tstr(t), self.rhs(t, env, d)))
                 env = [e for e in env if e[0] != name] + [(name, t, True)]
             elif x < 0.72:
